@@ -499,12 +499,24 @@ pub fn run_big(c: &BigCase) -> Outcome {
     Ok(obs)
 }
 
+/// bounded-exhaustive scope: every undirected graph on 1..=4 nodes (loops included) with every assignment
+/// of the weights {0, 1, 3} to its edges, and every such digraph on 1..=3 nodes, x encoding; i32 and f64 alternate
+const ENUM_P: u64 = 6;
+fn enum_count(_tier: Tier) -> u64 {
+    small_weighted_count(3, 4) * ENUM_P
+}
+fn enum_make(_tier: Tier, i: u64) -> Case {
+    let (dir, n, code) = small_weighted(i / ENUM_P, 3, 4).expect("index within the scope");
+    // wmode 0 = weights 0..=3: weight(byte) = byte * 4 >> 8: 0 -> 0, 64 -> 1, 192 -> 3
+    Case { g: raw_quaternary(dir, n, code, [0, 64, 192]), enc: (i % ENUM_P) as u8, salt: (i % 251) as u8, wmode: 0, float: (i / ENUM_P) % 2 == 1, nan: false, nan_anywhere: false }
+}
+
 pub fn property() -> Property {
     Property {
         id: "C12",
-        rule: "random weighted multigraphs with loops and many equal weights (0..=9 nodes quick, 1-4 components, three weight ranges, i32 and exact f64) in Graph / StableGraph+MatrixGraph with vacancies / GraphMap / Csr; the element stream is checked structurally (nodes first in node_references order, every edge a distinct edge of the graph with that weight, acyclic, |V|-c edges) and its total weight compared with a naive Prim oracle that is itself cross-checked by exhaustive subset enumeration when m<=11; Prim checked on undirected storage for the first node's component; from_elements result compared with the stream; with f64 weights a quarter of the cases put NaN on every self-loop (never a forest edge) to exercise MinScored's NaN ordering in the heaps; non-trivial = >=2 components (n>=3) or at least one non-tree edge; sub-check mst/large: stars, paths, random trees and caterpillars of 2..=420 nodes (900 thorough) plus up to 60 random extra edges in Graph/StableGraph, oracle = sort-based Kruskal with its own union-find, non-trivial = more than 256 nodes; distinct by case fingerprint",
+        rule: "random weighted multigraphs with loops and many equal weights (0..=9 nodes quick, 1-4 components, three weight ranges, i32 and exact f64) in Graph / StableGraph+MatrixGraph with vacancies / GraphMap / Csr; the element stream is checked structurally (nodes first in node_references order, every edge a distinct edge of the graph with that weight, acyclic, |V|-c edges) and its total weight compared with a naive Prim oracle that is itself cross-checked by exhaustive subset enumeration when m<=11; Prim checked on undirected storage for the first node's component; from_elements result compared with the stream; with f64 weights a quarter of the cases put NaN on every self-loop (never a forest edge) to exercise MinScored's NaN ordering in the heaps; non-trivial = >=2 components (n>=3) or at least one non-tree edge; sub-check mst/large: stars, paths, random trees and caterpillars of 2..=420 nodes (900 thorough) plus up to 60 random extra edges in Graph/StableGraph, oracle = sort-based Kruskal with its own union-find, non-trivial = more than 256 nodes; distinct by case fingerprint; bounded-exhaustive sub-check: every undirected graph on 1..=4 nodes and digraph on 1..=3 nodes (loops included) with every assignment of the weights {0,1,3} x 6 encodings, i32 and f64",
         assumptions: &["float weights are multiples of 0.25 (exact sums)"],
         both_profiles: false,
-        subs: vec![sub("mst/kruskal+prim", 1_500_000, 40_000_000, strategy, run), sub("mst/large", 6_000, 50_000, big_strategy, run_big)],
+        subs: vec![sub("mst/kruskal+prim", 1_500_000, 40_000_000, strategy, run), sub_enum("mst/all-small-weighted-graphs", enum_count, enum_make, run), sub("mst/large", 6_000, 50_000, big_strategy, run_big)],
     }
 }
